@@ -137,9 +137,22 @@ func streamC02(c *Ctx) {
 	twins := []string{"t0", "t1", "t2", "measurements3"}
 	for _, be := range backendsAll {
 		im := NewImpl(be, c.Scratch)
-		if !c02Cells(c, dr, im, be, !c.Quick()) {
+		if !c02Cells(c, dr, im, be, !c.Quick()) || !sameFieldCells(c, dr, im, be) {
 			im.Destroy()
 			return
+		}
+		// indexes on dotted paths and on the object that encloses them, under writes to either
+		for r := 0; r < c.N(8, 80); r++ {
+			lines := nestedIndexHistory(NewHistGen(NewGen(c.Rng, dm), 1, 1))
+			o := runHistory(dr, im, lines, HistOpts{})
+			recordHistory(c, lines, &o, be)
+			c.Count("nested-index-history")
+			if o.Index >= 0 {
+				if reportHistoryProblem(c, dr, im, lines, &o, be, HistOpts{}, "nested-index") {
+					im.Destroy()
+					return
+				}
+			}
 		}
 		for hN := 0; hN < nHist; hN++ {
 			g := NewGen(c.Rng, dm)
@@ -695,7 +708,9 @@ func streamC08(c *Ctx) {
 				}
 				lines = append(lines, opLine("insert", J{"coll": hx("w"), "docs": docs}))
 			}
-			wins := [][2]int{{5, -3}, {10, -7}, {0, -2}, {size, -1}, {7, -7}, {3, 0}, {0, 5}, {size - 2, 10}, {250, 100}, {1, -1 << 62}}
+			wins := [][2]int{{5, -3}, {10, -7}, {0, -2}, {size, -1}, {7, -7}, {3, 0}, {0, 5}, {size - 2, 10}, {250, 100}, {1, -1 << 62},
+				// limits and skips at the end of the int range ("no limit" written as the largest int): skip + limit must not be computed
+				{3, math.MaxInt}, {1, math.MaxInt - 1}, {size - 2, math.MaxInt}, {0, math.MaxInt}, {math.MaxInt, 5}, {math.MaxInt, math.MaxInt}, {2, math.MinInt}, {math.MaxInt - 1, 2}}
 			for _, w := range wins {
 				for _, srt := range []interface{}{[]interface{}{[]interface{}{hx("y"), 1}}, []interface{}{[]interface{}{hx("x"), -1}}, []interface{}{[]interface{}{hx("z"), 1}, []interface{}{hx("y"), -1}}, nil} {
 					q := J{"coll": hx("w"), "skip": w[0], "limit": w[1]}
